@@ -93,6 +93,20 @@ func (e *C10) Run(c *core.Ctx, idx int) {
 		switch r.Intn(4) {
 		case 0: // a real generated payload, sometimes cut short inside (the segment itself stays well-formed)
 			t, _, _ = gen.SynthPayload(r, r.Bool(), 3)
+			if r.Chance(1, 4) {
+				// one parsed text value longer than any pooled buffer (4 KiB), inside a block that
+				// still fits its segment
+				rec := gen.GenExifRec(r, gen.RecOpts{Density: 50})
+				keep := rec.IFD0.Entries[:0]
+				for _, en := range rec.IFD0.Entries {
+					if en.Tag != 0x010e {
+						keep = append(keep, en)
+					}
+				}
+				rec.IFD0.Entries = keep
+				rec.IFD0.Add(0x010e, gen.ASCII(gen.XText(r, r.Pick(4090, 4096, 4097, 5000, 9000, 20000))))
+				t = gen.BuildTIFF(rec.Assemble(true), gen.Layout{Big: r.Bool(), FirstOff: 8, MaxPad: r.Pick(0, 3), Order: r.Intn(3), R: r}).Bytes
+			}
 			if len(t) > 65000 {
 				t = t[:65000]
 			}
@@ -201,7 +215,16 @@ func (e *C10) Run(c *core.Ctx, idx int) {
 		switch exifMode {
 		case 1:
 			cr := &countingReader{r: rd}
-			err := ir.DecodeJPEGIfd(cr, h)
+			var err error
+			if br, ok := rd.(exif2.BufferedReader); ok && r.Bool() {
+				// keep the Peek/Discard interface the library's reader prefers (its buffered path)
+				cb2 := &countingBuffered{br: br}
+				err = ir.DecodeJPEGIfd(cb2, h)
+				cr.n = cb2.n
+				c.Rec.Count("lib_exif_reader_buffered_path", 1)
+			} else {
+				err = ir.DecodeJPEGIfd(cr, h)
+			}
 			cb.note = fmt.Sprint("lib err=", err)
 			c.Rec.Count("lib_exif_reader_calls", 1)
 			if err != nil {
@@ -277,8 +300,37 @@ func (e *C10) Run(c *core.Ctx, idx int) {
 	desc := fmt.Sprintf("pattern=%s exifMode=%d xmpMode=%d reader=%d len=%d", pattern, exifMode, xmpMode, readerKind, len(j.Bytes))
 	c.SetPhase(desc)
 	dumpInput(c, "ScanJPEG", j.Bytes)
+	// a caller may pass nil for either callback: those segments are then skipped like any other,
+	// the other kind is still delivered
+	nilExif, nilXMP := false, false
+	switch r.Intn(10) {
+	case 0:
+		nilExif = true
+	case 1:
+		nilXMP = true
+	}
+	if nilExif || nilXMP {
+		var w2 []gen.Seg
+		for _, sg := range want {
+			if (sg.Kind == "exif" && nilExif) || (sg.Kind == "xmp" && nilXMP) {
+				continue
+			}
+			w2 = append(w2, sg)
+		}
+		want = w2
+		desc += fmt.Sprintf(" nilExif=%v nilXMP=%v", nilExif, nilXMP)
+	}
 	var err error
-	pk, key, text := core.Guard(func() { err = jpeg.ScanJPEG(rd, exifCb, xmpCb) })
+	pk, key, text := core.Guard(func() {
+		switch {
+		case nilExif:
+			err = jpeg.ScanJPEG(rd, nil, xmpCb)
+		case nilXMP:
+			err = jpeg.ScanJPEG(rd, exifCb, nil)
+		default:
+			err = jpeg.ScanJPEG(rd, exifCb, xmpCb)
+		}
+	})
 	c.Rec.Eval(1)
 	viol := func(key, msg string) {
 		c.Rec.Violation(key, msg+" ("+desc+")", map[string]any{"case": desc, "segments": segSummary(j.Segs)})
@@ -386,4 +438,22 @@ func rootDirInside(tiff []byte, h meta.ExifHeader) bool {
 	}
 	n := int(o.Uint16(tiff[off:]))
 	return n >= 1 && n <= 128 && off+2+12*n+4 <= len(tiff)
+}
+
+// countingBuffered counts what is consumed through a Peek/Discard/Read reader.
+type countingBuffered struct {
+	br exif2.BufferedReader
+	n  int64
+}
+
+func (c *countingBuffered) Peek(n int) ([]byte, error) { return c.br.Peek(n) }
+func (c *countingBuffered) Discard(n int) (int, error) {
+	d, err := c.br.Discard(n)
+	c.n += int64(d)
+	return d, err
+}
+func (c *countingBuffered) Read(p []byte) (int, error) {
+	n, err := c.br.Read(p)
+	c.n += int64(n)
+	return n, err
 }
